@@ -70,12 +70,13 @@ func runC04(c *eng.Ctx, thorough bool) {
 			return ok
 		}
 		// the deferred closure that deletes the primary entry
-		viewDelete := nfNamed(`^<barrier\.View>\.Delete$`)
+		// storage operations are told by the view they go to: the token store's own views
+		tsViews := `vault\.\(\*TokenStore\)\.(idView|parentView|accessorView)$`
 		var clo *ssa.Function
 		var deferIn []ssa.Instruction
 		for _, in := range eng.Instrs(f, func(in ssa.Instruction) bool { _, ok := in.(*ssa.Defer); return ok }) {
 			if fn, _ := nfFuncValue(in.(*ssa.Defer).Call.Value); fn != nil && fn.Parent() == f {
-				if len(nfMust(fn, &nfFrame{call: in.(ssa.CallInstruction)}, viewDelete, 1)) > 0 {
+				if len(nfViewOps(fn, &nfFrame{call: in.(ssa.CallInstruction)}, "Delete", tsViews)) > 0 {
 					clo = fn
 					deferIn = append(deferIn, in)
 				}
@@ -92,7 +93,7 @@ func runC04(c *eng.Ctx, thorough bool) {
 		cubby := nfAts(cubbyS)
 		rbtS := nfPlain(nfSites(f, `vault\.\(\*ExpirationManager\)\.RevokeByToken$`))
 		rbt := nfAts(rbtS)
-		idxDelS := nfPlain(nfMust(f, nil, viewDelete, 2))
+		idxDelS := nfViewOps(f, nil, "Delete", tsViews)
 		idxDel := nfAts(idxDelS)
 		c.Floor(f, "cubbyholeDestroyer call", len(cubby), 1)
 		c.Floor(f, "RevokeByToken call", len(rbt), 1)
@@ -136,7 +137,7 @@ func runC04(c *eng.Ctx, thorough bool) {
 			c.Violation(f, "deferred primary delete", f.Pos(), "no deferred closure deleting the primary token entry exists", nil)
 		} else {
 			cloFr := &nfFrame{call: deferIn[0].(ssa.CallInstruction)}
-			delS := nfPlain(nfMust(clo, cloFr, viewDelete, 1))
+			delS := nfViewOps(clo, cloFr, "Delete", tsViews)
 			del := nfAts(delS)
 			c.Cut(clo, "idView.Delete(saltedID)", del, eng.G(clo, `^\^ret == nil$`, true), nil)
 			c.Clause("R5", "C04.1")
@@ -234,7 +235,7 @@ func runC04(c *eng.Ctx, thorough bool) {
 			}
 			check("deleting its parent-index entry", eng.Or(eng.Guard{Desc: "success edge of parentView.Delete(parent/salted)", Edges: nfOKEdgesOf(pDel)}, entryField("Parent", `""`)), nfAts(pDel))
 			check("deleting its accessor-index entry", eng.Or(eng.Guard{Desc: "success edge of accessorView.Delete", Edges: nfOKEdgesOf(aDel)}, entryField("Accessor", `""`)), nfAts(aDel))
-			listS := nfPlain(nfMust(f, nil, nfNamed(`^<barrier\.View>\.List$`), 2))
+			listS := nfViewOps(f, nil, "List", `vault\.\(\*TokenStore\)\.parentView$`)
 			check("listing its children (unless called from the tree walk)", eng.Or(eng.Guard{Desc: "success edge of parentView.List(saltedID/)", Edges: nfOKEdgesOf(listS)}, eng.G(f, `^skipOrphan$`, true)), nfAts(listS))
 			// every child is orphaned or its dangling index removed: the loop body's failing steps return errors
 			c.Clause("R4", "C04.2")
@@ -588,11 +589,12 @@ func runC04(c *eng.Ctx, thorough bool) {
 	// ---- C04.7 tree walk
 	if f := c.Fn("vault.(*TokenStore).revokeTreeInternal"); f != nil {
 		c.Clause("R3", "C04.7")
-		list := nfAts(nfPlain(nfSites(f, `<barrier\.View>\.List$`)))
+		listS := nfViewOps(f, nil, "List", `vault\.\(\*TokenStore\)\.parentView$`)
+		list := nfAts(listS)
 		revC := nfCalls(f, `vault\.\(\*TokenStore\)\.revokeInternal$`)
 		rev := nfIns(revC)
 		if c.Floor(f, "parentView.List", len(list), 1) && c.Floor(f, "revokeInternal", len(rev), 1) {
-			c.Cut(f, "revokeInternal(node)", rev, nfGCallOK(f, `<barrier\.View>\.List$`), nil)
+			c.Cut(f, "revokeInternal(node)", rev, nfOKOf(`success edge of <barrier\.View>\.List$`, listS), nil)
 			// leaves only: the emptiness test is selected by what it tests — the slice that is pushed
 			// onto the stack the node was read from — not by the name or shape of that slice
 			if lg, why := c04LeafGuard(f, rev); why != "" {
